@@ -58,6 +58,8 @@ class Ctx:
         """One obligation examined and satisfied at ``node``."""
         self.obligations += 1
         self.discharged += 1
+        if os.environ.get("VERIF_VERBOSE"):
+            print(f"  ok {rule} {rel(node) if node is not None else '-'} :: {fact}")
         r = self._r(rule)
         r["obligations"] += 1
         r["discharged"] += 1
